@@ -891,7 +891,8 @@ class Expectation(Pytree):
             effectively performing only the forward pass through the stochastic
             computation graph.
         """
-        tangents = jtu.tree_map(lambda _: 0.0, args)
+        # Zero tangents must carry each argument's shape and tangent dtype.
+        tangents = jtu.tree_map(_zero_tangent_like, args)
         return self.jvp_estimate(*Dual.dual_tree(args, tangents)).primal
 
 
